@@ -58,6 +58,7 @@ pub static KEYWORDS: Lazy<HashSet<&'static str>> = Lazy::new(|| {
         "class",
         "Self",
         "get",
+        "typeof",
         "or",
         "xor",
         "nil",
